@@ -126,11 +126,25 @@ func mkEq(a, b string) string {
 func mkSelect(a, i string) string {
 	// select(store(A, i, v), i) = v  (syntactically equal index)
 	if strings.HasPrefix(a, "(store ") {
-		if args := topArgs(a); len(args) == 4 && args[2] == i {
+		// only for stored function numerals (closure identity must survive the heap); for
+		// everything else the select term is kept: it is what quantifier triggers match on
+		if args := topArgs(a); len(args) == 4 && args[2] == i && isFuncNumeral(args[3]) {
 			return args[3]
 		}
 	}
 	return sx("select", a, i)
+}
+
+func isFuncNumeral(t string) bool {
+	if len(t) != 7 || t[0] != '1' {
+		return false
+	}
+	for _, c := range t {
+		if c < '0' || c > '9' {
+			return false
+		}
+	}
+	return true
 }
 
 // topArgs splits "(op a b c)" into [op a b c] at nesting depth 1.
